@@ -1070,11 +1070,11 @@ def rule_setter(ctx):
     return res.finish(60)
 
 
-def rule_carry(ctx):
+def rule_carry(ctx, rid="R-C04-carry", only=None, floor=2):
     """A builder method that rebuilds the parameter set (because a type parameter changes: with_rng) carries every field
     over: a field that is not copied from `self` silently falls back to a default, and an invalid value set before the
     call is no longer there to be rejected."""
-    res = RuleResult("R-C04-carry", "builder methods that rebuild the parameter struct copy every field from self (or set it from their own arguments)")
+    res = RuleResult(rid, "builder methods that rebuild the parameter struct copy every field from self (or set it from their own arguments)%s" % ("" if only is None else " [%s]" % ", ".join(sorted(only))))
     F = ctx.facts()
     impls = guard_impls(F)
     adts = {}
@@ -1091,11 +1091,18 @@ def rule_carry(ctx):
         if adt in impls and not d.get("trait"):
             by_name.setdefault((adt, d["name"]), fn)
     n = 0
+    nseen = 0
     for adt, fn in methods:
+        if only is not None and adt not in only:
+            continue
+        nseen += 1
         c = fn["crate"]
         body = strip(fn["body"])
         tail = strip(body["e"]) if body.get("k") == "Block" and body.get("e") is not None else body
         if tail.get("k") == "Path" and tail.get("name") == "self":
+            if only is not None:
+                res.instance("%s : returns self" % fn_key(fn))
+                res.ok()
             continue
         if (fn["params"][0].get("mode") or "").endswith("Mut)"):
             continue
@@ -1215,10 +1222,25 @@ def rule_carry(ctx):
                     res.violate("%s : field-reset:%s" % (key, fname), "`%s` rebuilds the parameter set with `%s` = %s instead of the value held by self" % (fn["d"]["name"], fname, pv[1]), fn_loc(fn))
                 else:
                     res.ok()
-    if n < 2:
+    if only is None and n < 2:
         res.missing_anchor("rebuilding builder methods (with_rng of GmmParams and RandomProjectionParams; found %d)" % n)
-    return res.finish(2)
+    if only is not None and nseen < floor:
+        res.missing_anchor("builder methods of %s (found %d)" % (", ".join(sorted(only)), nseen))
+    return res.finish(floor)
+
+
+def make_carry_rule(rid, only, floor):
+    def rule(ctx):
+        return rule_carry(ctx, rid=rid, only=set(only), floor=floor)
+    rule.__name__ = "rule_carry_" + rid.split("-")[1].lower()
+    return rule
+
+
+ALL_CRATES = {"linfa", "linfa_bayes", "linfa_clustering", "linfa_elasticnet", "linfa_ftrl", "linfa_hierarchical", "linfa_ica", "linfa_kernel", "linfa_linear", "linfa_logistic",
+              "linfa_nn", "linfa_pls", "linfa_preprocessing", "linfa_reduction", "linfa_svm", "linfa_trees", "linfa_tsne", "linfa_datasets"}
 
 
 def rules(tier):
-    return [rule_range, rule_same, rule_dom, rule_forge, rule_default, rule_setter, rule_carry]
+    from . import carry
+    return [rule_range, rule_same, rule_dom, rule_forge, rule_default, rule_setter, rule_carry,
+            carry.make_clone_rule("R-C04-clone", ALL_CRATES, 40), carry.make_setter_rule("R-C04-override", ALL_CRATES, 60)]
